@@ -45,7 +45,11 @@ Inductive sev :=
 
 Inductive case :=
 | CSnap (auto : bool) (evs : list sev) (final : data)
-| CRaw (ok : bool) (ty : Z) (exts : list (N * N)) (accepted crashed : bool).
+| CRaw (ok : bool) (ty : Z) (exts : list (N * N)) (accepted crashed : bool)
+(* thorough tier: three real meta services over raft; [s0] the metadata observed on the formed
+   cluster, [steps] the acknowledged commands (raft index, term, command), [finals] the
+   metadata of every node after quiescence *)
+| CSoak (auto : bool) (s0 : data) (steps : list (N * N * cmd)) (finals : list data).
 
 (* the commands of a schedule, in order *)
 Fixpoint applies (evs : list sev) : list entry :=
@@ -115,6 +119,14 @@ Definition check_case (c : case) : N :=
       code (Bool.eqb (validate_env c07_validate_checks_ext c07_validate_table e) accepted &&
             Bool.eqb (is_crash (apply_raw_env c07_apply_ext e)) crashed)
            (raw_spec accepted crashed)
+  | CSoak auto s0 steps finals =>
+      let m := fold_left (fun d (s : N * N * cmd) =>
+                            fst (apply auto [] d (fst (fst s)) (snd (fst s)) (snd s))) steps s0 in
+      code (forallb (fun f => data_sim (canon f) (canon m)) finals)
+           (match finals with
+            | [] => true
+            | f0 :: t => forallb (fun f => data_eqb (canon f) (canon f0)) t
+            end)
   end.
 
 (* frequent strings of the harness' name pools (the harness prints z<i>) *)
